@@ -23,3 +23,25 @@ Theorem C03_accept_sound :
      /\ (forall i, d_issued d = Some i -> ts_gate i = true /\ to_issuance_date (pk_iat k) (pk_nbf k) = ROk i /\ i <= po_latest_issuance o).
 Proof. exact validate_pres_sound. Qed.
 Print Assumptions C03_accept_sound.
+
+(* the rejection side: the nonce is compared first and a mismatch is reported as such; an error of
+   verify_jws is the error of the validator; a token whose iss is not the holder document's DID, whose
+   signature verifies under no key, or whose holder document offers no method in scope is accepted
+   for NO decoded value - for every token, holder and option set *)
+Theorem C03_nonce_mismatch_first : forall t h o, pt_nonce t <> po_nonce o -> validate_pres t h o = inr PVNonce.
+Proof. exact pres_nonce_mismatch_first. Qed.
+Print Assumptions C03_nonce_mismatch_first.
+Theorem C03_jws_error_propagates : forall t h o e, verify_jws t h o = inr e -> validate_pres t h o = inr e.
+Proof. exact pres_jws_error_propagates. Qed.
+Print Assumptions C03_jws_error_propagates.
+Theorem C03_foreign_holder_never_accepted : forall t h o d, pt_iss_did t <> Some (h_id h) -> validate_pres t h o <> inl d.
+Proof. exact pres_foreign_holder_never_accepted. Qed.
+Print Assumptions C03_foreign_holder_never_accepted.
+Theorem C03_bad_signature_never_accepted : forall t h o d,
+  (forall key, pt_sig_ok t key = false) -> validate_pres t h o <> inl d.
+Proof. exact pres_bad_signature_never_accepted. Qed.
+Print Assumptions C03_bad_signature_never_accepted.
+Theorem C03_no_method_never_accepted : forall t h o d,
+  (forall q, resolve_method (h_doc h) q (po_scope o) = None) -> validate_pres t h o <> inl d.
+Proof. exact pres_no_method_never_accepted. Qed.
+Print Assumptions C03_no_method_never_accepted.
